@@ -574,6 +574,7 @@ class _AttrFold(ast.NodeTransformer):
 
     def __init__(self):
         self.count = 0
+        self.count_folded_len = False
 
     @staticmethod
     def _ident(node):
@@ -581,9 +582,20 @@ class _AttrFold(ast.NodeTransformer):
 
     def visit_Call(self, node):
         self.generic_visit(node)
+        if isinstance(node.func, ast.Name) and node.func.id == "len" and len(node.args) == 1 and not node.keywords and isinstance(node.args[0], ast.Constant) \
+                and isinstance(node.args[0].value, (str, bytes)):
+            self.count += 1
+            return ast.copy_location(ast.Constant(value=len(node.args[0].value)), node)
         if isinstance(node.func, ast.Name) and node.func.id == "getattr" and len(node.args) == 2 and not node.keywords and self._ident(node.args[1]) and _pure(node.args[0]):
             self.count += 1
             return ast.copy_location(ast.Attribute(value=node.args[0], attr=node.args[1].value, ctx=ast.Load()), node)
+        return node
+
+    def visit_UnaryOp(self, node):
+        self.generic_visit(node)
+        if isinstance(node.op, ast.USub) and isinstance(node.operand, ast.Constant) and isinstance(node.operand.value, (int, float)) and not isinstance(node.operand.value, bool) \
+                and self.count_folded_len:
+            return ast.copy_location(ast.Constant(value=-node.operand.value), node)
         return node
 
     def visit_Expr(self, node):
